@@ -95,12 +95,13 @@ func init() {
 			"(C-sparse) no branch depends on the presence bit of a sparse Amounts entry (absent means zero).",
 			"(I-recheck) interning is atomic: a new account or commodity is inserted only after a membership test under the same exclusive lock, so one name has one object and positions keyed by it do not split;",
 			"(K-day-key) the key under which the builder files a day is an injective function of the date (the time itself, a mixed-radix integer of its components, or a full-date format): directives of one date form one day, of two dates two;",
+			"(J-pair) every booking yields its two postings on every path of the pair builder, so the checker sees (and tests the accounts of) every booking, also one of zero;",
 		},
 		NotDecided: []string{
 			"the iff itself: the comparison of quantities in assertions, the zero test on close, the text of diagnostics;",
 			"assertions on non asset/liability accounts (the checker tracks quantities only for A/L accounts).",
 		},
-		Rules: []Rule{RuleDProcessOrder, RuleKSortedDays, RuleKFifo, RuleDOpenClose, RuleDReject, RuleDCheckFirst, RuleCSparse, RuleIRecheck, RuleKDayKey},
+		Rules: []Rule{RuleDProcessOrder, RuleKSortedDays, RuleKFifo, RuleDOpenClose, RuleDReject, RuleDCheckFirst, RuleCSparse, RuleIRecheck, RuleKDayKey, RuleJPair},
 	})
 }
 
@@ -234,12 +235,13 @@ func init() {
 			"(D-atomic, C-filewrite) --inplace writes through the atomic writer only after a successful parse and render.",
 			"(C-filewrite, D-atomic) with --inplace the result is written only through atomic.WriteFile, after the target was parsed and rendered successfully (no truncating or in-place open of the journal);",
 			"(K-range-text) outside lib/syntax/directives the field Range.Text (the whole file) is only sliced, indexed, measured or copied: the other account of a booking is compared through its extracted text;",
+			"(K-infer-all) the command hands every transaction of the target to Model.Infer: the loop over the directives ends only with its range and the call depends only on the type test;",
 		},
 		NotDecided: []string{
 			"that the chosen account maximises the Bayes score; that the formatter preserves everything else (C08);",
 			"that the stored account occurs in the training journal (it is a key of the training counts by construction of the candidate loop; not machine-checked).",
 		},
-		Rules: []Rule{RuleCInfer, RuleCInferFresh, RuleKZeroFlow, RuleAOrder, RuleCFileWrite, RuleDAtomic, RuleKRangeText},
+		Rules: []Rule{RuleCInfer, RuleCInferFresh, RuleKZeroFlow, RuleAOrder, RuleCFileWrite, RuleDAtomic, RuleKRangeText, RuleKInferAll},
 	})
 	claim(&Property{
 		ID: "C20",
@@ -381,11 +383,12 @@ func init() {
 			"(K-transcode-order, K-sorted-days) entries follow the sorted days, and within a day opens come before transactions before closes;",
 			"(F-valuation-open) the predicate that recognises generated valuation accounts accepts what Registry.ValuationAccountFor builds (violated on this tree: known finding);",
 			"(D-nilflag) a missing valuation is an error, not a nil dereference; (D-check-first, G1) the checker and the price stage precede the valuation.",
+			"(K-reval) the daily value adjustments that transcode emits: one per open position whose price moved — positions are skipped only for the reviewed reasons (sign tests decided on the sign domain: only a zero quantity or an unchanged price);",
 		},
 		NotDecided: []string{
 			"open-before-use for user accounts (that is the checker's job, C04); completeness against a reference beancount run; escaping of descriptions for beancount.",
 		},
-		Rules: []Rule{RuleKAllPostings, RuleKEmitAll, RuleJPair, RuleJValuation, RuleKTranscodeOrder, RuleKSortedDays, RuleFValuationOpen, RuleDNilFlag, RuleDCheckFirst, RuleG1},
+		Rules: []Rule{RuleKAllPostings, RuleKEmitAll, RuleJPair, RuleJValuation, RuleKTranscodeOrder, RuleKSortedDays, RuleFValuationOpen, RuleDNilFlag, RuleDCheckFirst, RuleG1, RuleKReval},
 	})
 	claim(&Property{
 		ID: "C19",
